@@ -123,7 +123,10 @@ CONTRACTS.update({
                         '(valid_ranges == _it) == forall(lambda s: implies(0 <= s and s < _it, ranges[s] >= 0))']},
             1: {'inv': ['len(weights) == _it + 1', 'weights[0] == 1',
                         'forall(lambda s: implies(0 <= s and s <= _it, weights[s] >= 0))',
-                        'forall(lambda s: implies(0 <= s and s < _it, weights[s + 1] == weights[s] * ranges[len(ranges) - 1 - s]))']},
+                        # stated over the index that is read (E-matching instantiates it directly at weights[u])
+                        'forall(lambda u: implies(1 <= u and u <= _it, weights[u] == weights[u - 1] * ranges[len(ranges) - u]), lambda u: weights[u])'],
+                'hints': ['weights[_it + 1] == weights[_it] * ranges[len(ranges) - 1 - _it]', 'len(weights) == _it + 2'],
+                'exit_hints': ['implies(len(ranges) >= 1, weights[len(ranges)] == weights[len(ranges) - 1] * ranges[0])']},
         },
         # the constructor establishes the class invariant that to_index/_unsafe_index_to_lit rely on,
         # and takes the first free identifiers (contiguity, C11/C10)
